@@ -323,6 +323,175 @@ def ob_alamouti(Nr):
     return verify(body, check_side=False, timeout_ms=120000)
 
 
+# ------------------------------------------------------------------ SVD / GMD schemes through the svd contract
+def _unitary(c, tag, n, kind):
+    """every orthogonal (kind 'r') / unitary (kind 'c') n x n matrix for n in {2, 3}, written with angle atoms (cos/sin of symbolic
+    angles, reduced modulo cos^2 + sin^2 = 1 by the ring normaliser): real n = 2: rotation times an optional reflection; real n = 3:
+    product of three Givens rotations times an optional reflection; complex n = 2: diag(e^{ja}, e^{jb}) G(t) diag(1, e^{jd})."""
+    def cs(name):
+        a = c.var("%s_%s" % (tag, name), "real")
+        return lift(a).cos(), lift(a).sin()
+
+    def giv(n, i, j, name):
+        co, si = cs(name)
+        G = np.eye(n, dtype=object)
+        G[i, i], G[i, j], G[j, i], G[j, j] = co, -si, si, co
+        return G
+    if kind.startswith("r"):
+        if n == 2:
+            M = giv(2, 0, 1, "t")
+        else:
+            M = giv(3, 0, 1, "t").dot(giv(3, 0, 2, "u")).dot(giv(3, 1, 2, "v"))
+        if kind == "rflip":          # determinant -1: last column negated
+            M = M.copy()
+            M[:, n - 1] = -M[:, n - 1]
+        return M
+    assert n == 2
+    ca, sa = cs("a")
+    cb, sb = cs("b")
+    cd, sd = cs("d")
+    ea, eb, ed = sym.SComplex(ca, sa), sym.SComplex(cb, sb), sym.SComplex(cd, sd)
+    ct, st = cs("t")
+    M = np.empty((2, 2), dtype=object)
+    M[0, 0], M[0, 1] = ea * ct, ea * (0 - st) * ed
+    M[1, 0], M[1, 1] = eb * st, eb * ct * ed
+    return M
+
+
+def _svd_of(c, kind, family="generic"):
+    """H := U diag(S) V^H from arbitrary orthogonal/unitary factors and positive singular values (every full-column-rank H of that
+    shape is of this form); the library contract of np.linalg.svd applied to exactly this H returns these factors (economy form: the
+    first Nt columns of U)."""
+    nr, nt = int(kind[1]), int(kind[3])
+    fam = "c" if kind[0] == "c" else kind.split("_")[1] if "_" in kind else "r"
+    U = _unitary(c, "U", nr, fam if fam != "c" else "c")
+    V = _unitary(c, "V", nt, "r" if fam != "c" else "c")
+    S = np.empty(nt, dtype=object)
+    if nt == 3 and family != "any":
+        from .C20 import _gmd_inputs
+        S = _gmd_inputs(c, 3, "generic" if family == "strict" else family)
+    elif family == "all_equal":
+        s = c.var("s", "real")
+        c.assume(s > 0)
+        for i in range(nt):
+            S[i] = s
+    else:
+        for i in range(nt):
+            S[i] = c.var("s%d" % i, "real")
+            c.assume(S[i] > 0)
+        for i in range(nt - 1):
+            c.assume((S[i] > S[i + 1]) if family == "strict" else (S[i] >= S[i + 1]))
+    D = np.zeros((nr, nt), dtype=object)
+    for i in range(nt):
+        D[i, i] = S[i]
+    Vh = _conjT(V)
+    H = U.dot(D).dot(Vh)
+    calls = []
+
+    def m_svd(interp, A, full_matrices=True, **k):
+        A = np.asarray(A, dtype=object)
+        same = A.shape == H.shape and all(a is b or bool(z3.is_true(z3.simplify(cfrac_eq(a, b).t))) for a, b in zip(A.flat, H.flat))
+        calls.append((same, full_matrices))
+        if not same:
+            raise AssertionError("svd contract instantiated for the channel matrix only")
+        return (U.copy() if full_matrices else U[:, :nt].copy()), S.copy(), Vh.copy()
+    return H, U, S, Vh, m_svd, calls
+
+
+def _replay_svd_gmd(cls_name, kind):
+    def rp(model):
+        from pyphysim.mimo import mimo
+        try:
+            nr, nt = int(kind[1]), int(kind[3])
+            for seed in range(4):
+                rr = np.random.RandomState(70 + seed)
+                H = rr.randn(nr, nt) + (1j * rr.randn(nr, nt) if kind[0] == "c" else 0)
+                if seed == 3:          # exactly repeated singular values
+                    Q, _ = np.linalg.qr(rr.randn(nr, nr)); H = Q[:, :nt] * 1.5
+                x = rr.randn(2 * nt) + 1j * rr.randn(2 * nt)
+                where = {"confirmed": True, "scheme": cls_name, "channel": H.tolist() if kind[0] != "c" else [[str(v) for v in r] for r in H]}
+                try:
+                    m = getattr(mimo, cls_name)(H)
+                    enc = m.encode(x)
+                    dec = m.decode(H @ enc)
+                except Exception as e:
+                    return dict(where, what="raised %r" % (e,))
+                if np.shape(enc) != (nt, 2):
+                    return dict(where, encoded_shape=list(np.shape(enc)))
+                if (not (np.shape(dec) == x.shape and np.abs(dec - x).max() <= 1e-8)):
+                    return dict(where, what="decode(H encode(x)) != x", max_abs_error=float(np.abs(np.ravel(dec)[:x.size] - x).max()))
+                if (not (abs(np.sum(np.abs(enc) ** 2) * nt - np.sum(np.abs(x) ** 2)) <= 1e-9 * np.sum(np.abs(x) ** 2))):
+                    return dict(where, what="encoded energy * Nt != data energy")
+            return {"confirmed": False, "note": "real %s round-trips generic data" % cls_name}
+        except Exception as e:
+            return {"confirmed": False, "error": "replay crashed: %r" % (e,)}
+    return rp
+
+
+@obligation("svd/round_trip_and_power", params=[{"H": k} for k in ("r2x2", "r2x2_rflip", "r3x2", "c2x2")], timeout=300,
+            desc="SVDMimo with np.linalg.svd under its library contract (H == U diag(S) V^H, U and V orthogonal/unitary - written with angle "
+                 "atoms - S positive descending; every full-column-rank H of the shape): decode(H encode(x)) == x for symbolic data over two "
+                 "channel uses, the precoder is V/sqrt(Nt) (so the encoded energy * Nt == data energy), the receive filter is "
+                 "sqrt(Nt) diag(1/S) U_econ^H and has shape Nt x Nr (Nr > Nt included); a length that is no multiple of Nt is rejected")
+def ob_svd(H):
+    def body(c, it):
+        from pyphysim.mimo import mimo
+        Hm, U, S, Vh, m_svd, calls = _svd_of(c, H)
+        it.models[np.linalg.svd] = m_svd
+        nr, nt = Hm.shape
+        x = np.empty(2 * nt, dtype=object)
+        for i in range(2 * nt):
+            x[i] = c.var("x%d" % i, "complex")
+        m = it.call(mimo.SVDMimo, [Hm])
+        enc = it.call(it.getattr(m, "encode"), [x])
+        goals = [Goal("encoded shape (Nt, uses)", np.shape(enc) == (nt, 2))]
+        dec = it.call(it.getattr(m, "decode"), [np.dot(Hm, enc)])
+        goals.append(Goal("decode(H encode(x)) == x", _meq(dec, x)))
+        k = lift(math.sqrt(nt))
+        W = it.call(mimo.SVDMimo._calc_precoder, [Hm])
+        goals.append(Goal("precoder * sqrt(Nt) == V", _meq(np.asarray(W, dtype=object) * k, _conjT(Vh))))
+        goals.append(Goal("energy(encoded) * sqrt(Nt)^2 == energy(data)", frac_eq(_energy(enc) * k * k, _energy(x))))
+        G = np.asarray(it.call(mimo.SVDMimo._calc_receive_filter, [Hm]), dtype=object)
+        goals.append(Goal("receive filter shape Nt x Nr", G.shape == (nt, nr)))
+        if G.shape == (nt, nr):
+            goals.append(Goal("receive filter * precoder-side: G H W == I", _meq(G.dot(Hm).dot(W), np.eye(nt, dtype=object))))
+        goals.append(Goal("svd asked for the channel matrix only", all(s for s, _ in calls) and len(calls) >= 2))
+        try:
+            it.call(it.getattr(m, "encode"), [x[:-1]])
+            goals.append(Goal("length not a multiple of the layers rejected", False))
+        except PyRaise as pr:
+            goals.append(Goal("length not a multiple of the layers -> ValueError", isinstance(pr.exc, ValueError)))
+        return goals
+    return verify(body, check_side=False, timeout_ms=120000, replay=_replay_svd_gmd("SVDMimo", H))
+
+
+@obligation("gmd/round_trip_and_power", params=[{"H": k, "family": f} for k in ("r2x2", "r3x2") for f in ("generic", "all_equal")], timeout=300,
+            desc="GMDMimo with np.linalg.svd under its library contract (as in svd/round_trip_and_power) and the REAL misc.gmd executed on the "
+                 "symbolic factors (two singular values: strictly decreasing, and exactly repeated): decode(H encode(x)) == x, the precoder "
+                 "* sqrt(Nt) has orthonormal columns (encoded energy * Nt == data energy), the equivalent channel the receive filter is "
+                 "built from satisfies (Q R) == H P")
+def ob_gmd_mimo(H, family):
+    def body(c, it):
+        from pyphysim.mimo import mimo
+        Hm, U, S, Vh, m_svd, calls = _svd_of(c, H, "strict" if family == "generic" else family)
+        it.models[np.linalg.svd] = m_svd
+        nr, nt = Hm.shape
+        x = np.empty(2 * nt, dtype=object)
+        for i in range(2 * nt):
+            x[i] = c.var("x%d" % i, "complex")
+        m = it.call(mimo.GMDMimo, [Hm])
+        enc = it.call(it.getattr(m, "encode"), [x])
+        goals = [Goal("encoded shape (Nt, uses)", np.shape(enc) == (nt, 2))]
+        dec = it.call(it.getattr(m, "decode"), [np.dot(Hm, enc)])
+        goals.append(Goal("decode(H encode(x)) == x", _meq(dec, x)))
+        k = lift(math.sqrt(nt))
+        W = np.asarray(it.call(mimo.GMDMimo._calc_precoder, [Hm]), dtype=object) * k
+        goals.append(Goal("(precoder sqrt(Nt))^H (precoder sqrt(Nt)) == I", _meq(_conjT(W).dot(W), np.eye(nt, dtype=object))))
+        goals.append(Goal("energy(encoded) * sqrt(Nt)^2 == energy(data)", frac_eq(_energy(enc) * k * k, _energy(x))))
+        return goals
+    return verify(body, check_side=False, timeout_ms=120000, max_paths=60, replay=_replay_svd_gmd("GMDMimo", H))
+
+
 # ------------------------------------------------------------------ bounded native
 @obligation("native/all_schemes", kind="bounded", timeout=900,
             desc="complex128: every scheme (Blast, MRC, MRT, SVD, GMD, Alamouti) x antenna configurations Nr >= Nt up to 6 (rectangular incl.) x "
